@@ -164,7 +164,8 @@ def modelStep (d : DSt) (ts : List String) : DSt × String :=
   precedes the first DRAG, DRAG_DROP at the release cell precedes DRAG_STOP, STOP and OUTSIDE go to the window
   that claimed START, OUTSIDE exactly when the DRAG was not claimed by that window.
   Mutations from inside handlers: the monitor replays the behaviour tables on its own copy of the tree.  The
-  windows *affected* by a mutation (the subtree of the target of close / unref / hide / show / steal; for focus
+  windows *affected* by a mutation (the subtree of the target of close / unref / hide / show / steal; the stealing
+  sibling that becomes the front-most child when the front-most one is unlinked; for focus
   the top-level subtrees holding the old and the new focus chain) are exempt from the order check; all the
   others must still be offered the event, in the reference order of the tree as it was when dispatch began. -/
 
@@ -233,6 +234,21 @@ def topAncestor (t : Tree) : Nat → Id → Id
       | none => id)
     | none => id
 
+/-- Unlinking the front-most child `x` of a window makes the next sibling the front-most one: if that sibling steals
+    input it is offered keys first from now on (before the focus chain and the parent) — delivery to it and to its
+    subtree *is* affected by the mutation.  (Found by the proof of `delivery_unaffected_key`: its side condition
+    `Base.stealFront`; probe corpus/C14/steal_front_sibling_closed.ops.) -/
+def headSteal (t : Tree) (x : Id) : List Id :=
+  match t.wins[x]? with
+  | some w => (match w.parent with
+    | some p => (match t.wins[p]? with
+      | some pw => (match pw.children with
+        | h :: y :: _ => if h = x && stealAt t y then subtree t (treeFuel t) y else []
+        | _ => [])
+      | none => [])
+    | none => [])
+  | none => []
+
 /-- Apply one action of a handler the implementation ran to the monitor's copy of the application state.
     A reference dropped by `unref` does not destroy here: destruction is taken from the `D` items of the log. -/
 def specApply (m : Mon) (kind : Kind) (a : Action) : Mon :=
@@ -243,7 +259,8 @@ def specApply (m : Mon) (kind : Kind) (a : Action) : Mon :=
   let sub := subtree t f a.win
   match a.act with
   | .unref => { m with cur := { st with owned := st.owned.setIfInBounds a.win (st.owned.getD a.win 0 - 1) }, affected := m.affected ++ sub }
-  | .close | .hide | .unhide | .stealOn | .stealOff =>
+  | .close => { m with cur := okOr (doAction st a) st, affected := m.affected ++ sub ++ headSteal t a.win }
+  | .hide | .unhide | .stealOn | .stealOff =>
     { m with cur := okOr (doAction st a) st, affected := m.affected ++ sub }
   | .focus =>
     let aff := if kind = Kind.key then
@@ -302,7 +319,8 @@ def checkCall (m : Mon) (what : String) (origin : Id) (absL absC : Int) (button 
     let goneNow (w : Id) : Bool := following.any fun it => match it with | .destroyed x => x = w | _ => false
     e.actions.foldl (fun m a =>
       let m' := specApply m c.kind a
-      if a.act = Act.unref ∧ allowed m.cur a ∧ goneNow a.win then { m' with cur := specDestroy m'.cur a.win } else m')
+      if a.act = Act.unref ∧ allowed m.cur a ∧ goneNow a.win then
+        { m' with cur := specDestroy m'.cur a.win, affected := m'.affected ++ headSteal m'.cur.tree a.win } else m')
       { m with cur := st }
 
 def isCall : Item → Bool
@@ -335,7 +353,7 @@ def checkSegment (m : Mon) (kind : Kind) (what : String) (origin : Option Id) (a
     let following := (items.drop (idx + 1)).takeWhile fun x => !isCall x
     let (m, seen, prev, claimer) := acc
     match it with
-    | .destroyed w => ({ m with cur := specDestroy m.cur w }, seen, prev, claimer)
+    | .destroyed w => ({ m with cur := specDestroy m.cur w, affected := m.affected ++ headSteal m.cur.tree w }, seen, prev, claimer)
     | .call c =>
       let m := if claimer.isSome then m.fail s!"{what}: a handler of window {c.win} ran after window {claimer.getD 0} had claimed the event" else m
       -- binding order inside a window's block
